@@ -8,28 +8,15 @@ HERE = os.path.dirname(os.path.dirname(os.path.abspath(__file__)))
 BASELINE_OFF = ("for m in clients/eth explorer-api-server explorer-backend node; do (cd /repo/$m && "
                 "GOFLAGS=-mod=mod go test -json -vet=off -count=1 -timeout 25m ./...); done")
 
-PROC_NOTE = ("Trusted: TLC, the Go toolchain, ECDSA/Keccak. The exhaustive run is at scaled constants (3-4 keys, 2 digests); "
-             "the bridge to real sizes (sets of 1..19, real keys, real Badger store) is trace validation of replayed TLC "
-             "behaviours and seeded adversarial histories. Time is simulated by shifting recorded instants in-package.")
-
-CHECKS = {
-    "C01": dict(text="Processor.tla is model-checked exhaustively (StoredValid, BroadcastValid, NoPeerOverwrite) and every handler call "
-                     "of replayed/generated histories on the real processor is validated by TLC against the same actions, with the "
-                     "stored and broadcast VAAs decoded and their signers recovered independently of the code under test.",
-                ref="6/C01", note=PROC_NOTE, technique="TLA+ model checking (TLC) + trace validation of the real handlers against Processor.tla"),
-    "C02": dict(text="Same specification; PublishAsSoonAs, NoPublishWithoutObservation, AtMostOncePerLifetime checked exhaustively; "
-                     "conformance of the real handlers on TLC behaviours, random histories and all orders of fixed event multisets.",
-                ref="6/C02", note=PROC_NOTE, technique="TLA+ model checking (TLC) + trace validation incl. permutation (confluence) histories"),
-    "C03": dict(text="InvalidObservationNoEffect is model-checked; the real observation handler is driven with every single-mutation class of "
-                     "valid observations before/after set changes and TLC validates that the projected state is unchanged.",
-                ref="6/C03", note=PROC_NOTE, technique="TLA+ model checking (TLC) + trace validation of gossip verifiers"),
-    "C13": dict(text="The specification is total over the adversarial input alphabet; histories over that alphabet (TLC behaviours and seeded "
-                     "generators) run on the real handlers under recover(); a panic is a trace line no specification action matches.",
-                ref="6/C13", note=PROC_NOTE, technique="TLA+ specification as generator/oracle (TLC) + trace validation; panic = rejected line"),
-    "C14": dict(text="Cleanup decision table model-checked with scaled thresholds (NoEarlyDiscard, RetryCadence, RetryOnlyWhenDue); the real "
-                     "handleCleanup is validated on histories of ticks and elapsed durations from 1 s to 120 h.",
-                ref="6/C14", note=PROC_NOTE, technique="TLA+ model checking (TLC) + trace validation of handleCleanup with simulated time"),
-}
+import importlib
+import sys
+sys.path.insert(0, os.path.join(HERE, "lib"))
+CHECKS = {}
+for _f in sorted(os.listdir(os.path.join(HERE, "lib"))):
+    if _f.startswith("chk_") and _f.endswith(".py"):
+        _m = importlib.import_module(_f[:-3])
+        for _pid in getattr(_m, "PROPS", []):
+            CHECKS[_pid] = _m.MANIFEST[_pid]
 
 NOT_YET = {
 }
